@@ -282,6 +282,73 @@ func runOffer(o *Out, r *rand.Rand, thorough bool, _ []string) {
 			}
 			o.Case("inflight ops="+strings.Join(ops, ";"), strings.Join(outs, "/"))
 		}
+		// a second connection on the connection id of an offer whose transfer has already completed, delivering nothing (a
+		// lost or empty stream): 0 items for n accepted keys is a stream with a different item count - nothing reaches
+		// validation a second time
+		nFollow := 3
+		if thorough {
+			nFollow = 4 // the fourth keeps the empty connection OPEN until the receiver's 60 s read deadline passes
+		}
+		for c := 0; c < nFollow; c++ {
+			silent := c == 3
+			var keys [][]byte
+			for len(keys) < 1+c%3 {
+				key := make([]byte, 16)
+				r.Read(key)
+				idh := sha256.Sum256(key)
+				if portalwire.VerifInRange(rcv.p.Self().ID(), radius, idh[:]) {
+					keys = append(keys, key)
+				}
+			}
+			for len(rcv.queue) > 0 {
+				<-rcv.queue
+			}
+			rcv.p.VerifVersionsCacheSet(snd.p.Self(), 1)
+			resp, err := rcv.p.VerifHandleOffer(snd.p.Self(), snd.udpAddr(), &portalwire.Offer{ContentKeys: keys})
+			acc := &portalwire.AcceptV1{}
+			if err != nil || len(resp) < 2 || acc.UnmarshalSSZ(resp[1:]) != nil {
+				o.Case(fmt.Sprintf("offerfollowup keys=%d", len(keys)), "error")
+				continue
+			}
+			cid := binary.BigEndian.Uint16(acc.ConnectionId)
+			items := make([][]byte, len(keys))
+			for i := range items {
+				items[i] = genBytes(50, i+c)
+			}
+			first, second := "none", 0
+			ctx, cancel := context.WithTimeout(context.Background(), 5*time.Second)
+			if conn, err := snd.p.Utp.DialWithCid(ctx, rcv.p.Self(), cid); err == nil {
+				_, _ = conn.Write(ctx, portalwire.VerifEncodeContents(items))
+				conn.Close()
+				select {
+				case el := <-rcv.queue:
+					first = fmt.Sprintf("items%d", len(el.Contents))
+				case <-time.After(5 * time.Second):
+					first = "timeout"
+				}
+				time.Sleep(400 * time.Millisecond) // let the first connection wind down on both sides
+				if conn2, err := snd.p.Utp.DialWithCid(ctx, rcv.p.Self(), cid); err == nil {
+					wait := 700 * time.Millisecond
+					if silent {
+						wait = 63 * time.Second // not one byte and no end of stream either: the read runs into its deadline
+					} else {
+						conn2.Close() // not one byte
+					}
+					select {
+					case <-rcv.queue:
+						second = 1
+					case <-time.After(wait):
+					}
+					if silent {
+						conn2.Close()
+					}
+				} else {
+					first += "+noseconddial"
+				}
+			}
+			cancel()
+			o.Case(fmt.Sprintf("offerfollowup keys=%d", len(keys)), fmt.Sprintf("first=%s second_enqueued=%d", first, second))
+		}
 		rcv.stop()
 		snd.stop()
 	}
